@@ -6,6 +6,7 @@ func init() {
 		Technique:   "enum-chain extraction of the per-operator closures (operator, operand sides, zero guards), provenance of operands to the left/right input step, role rules for the literal side, set-operator shape extraction, freshness of per-step state",
 		Explanation: "Decides the structural clauses of binary operations for all inputs: each operator's closure applies exactly that Go operator to (left, right) with x/0 and x%0 -> NaN and keeps the left labels; comparisons yield 1/keep as specified; vector-vector calls op(left sample, right sample) joined by Key(); the scalar sits on the side it was written; and/or/unless index/iterate/keep the right sides; no per-step state is shared between steps.",
 		Decided: []string{
+			"PV-ONCE (shared with C09): one grid point per Next of a range aggregation, so the two sides of an operation stay aligned",
 			"PV-ROLE: LiteralBinOp always returns the literal iterator built from its four parameters; PV-RESET: every step iterator writes r.Samples (or fills r from an inner iterator) on each path that returns true",
 			"CH-SIB: ReduceBinOp (constant folding) computes, per operator, the same function of (left, right) as evaluation",
 			"CH-MAP: buildSampleBinOp operator table incl. zero guards, operand order, result := left; boolOp truth table",
